@@ -560,7 +560,10 @@ def gen_config(rng, problem, flatten=None, drop_level=None, factor=None):
             drop_level = rng.choice(cands)
     return {
         'flatten': bool(flatten), 'drop_level': drop_level,
-        'chunk_size': rng.randint(1, n + 3),
+        # small chunks half of the time: many chunk files, whose sorted
+        # (lexicographic) order differs from row order once r0 >= 10
+        'chunk_size': rng.randint(1, 3) if rng.random() < 0.5
+        else rng.randint(1, n + 3),
         'n_processors': rng.randint(1, 4),
         'n_runners_up': rng.randint(0, 5),
         'encoding': rng.choice(['dense', 'csr', 'csc']),
@@ -747,6 +750,13 @@ def extract_oracle(run_tree, results, kappa_of):
     return script
 
 
+def sorted_tree(d):
+    """tree dict up to dict order / child-list order"""
+    return {k: (list(v) if k == 'hierarchy' else
+                {n: sorted(c) for n, c in sorted(v.items())})
+            for k, v in d.items()}
+
+
 def chunk_order(chunks):
     """order in which run_type_assignment_on_h5ad_cpu concatenates the
     per-chunk files: sorted by path, i.e. by the string '<r0>_<r1>_...'"""
@@ -801,6 +811,13 @@ def model_pipeline(ctx, problem, cfg, results, kappa_of=None):
         return {'field': 'chunks', 'model': out['chunks'], 'indep': chunks}
     if 'err' in out['result']:
         return {'field': 'result', 'model': out['result']}
+    if not out['runTreeWf']:
+        return {'field': 'wfb', 'why': 'the tree of the run does not satisfy '
+                'the hypothesis wfb of the theorems', 'model': out['runTree']}
+    rtm = out['runTree'].get('ok')
+    if rtm is None or sorted_tree(canon.tc.tree_from_json(rtm)) != \
+            sorted_tree(rt):
+        return {'field': 'runTree', 'model': out['runTree'], 'indep': rt}
     mres = out['result']['ok']
     if len(mres) != len(results):
         return {'field': 'count', 'model': len(mres), 'impl': len(results)}
